@@ -198,6 +198,11 @@ func TestVerifDurable(t *testing.T) {
 			case "block":
 				blocked = true
 				st.block.Store(true)
+			case "block_ctx":
+				// context-aware backend (S3/Azure style): the next Write that carries a deadline blocks until
+				// its context is cancelled and then returns ctx.Err()
+				blocked = true
+				st.blockCtx.Store(true)
 			case "unblock":
 				blocked = false
 				st.block.Store(false)
@@ -229,15 +234,13 @@ func TestVerifDurable(t *testing.T) {
 					// keep the flush worker inside storage.Write while the tick body runs: the order
 					// "replay enqueues, ResetFlushFailure, asynchronous flushes finish" is then fixed
 					st.block.Store(true)
-					if _, err := w.PurgeOlderThan(safeAge); err != nil {
-						t.Fatal(err)
-					}
 					recovery := wal.NewRecovery(walDir, zerolog.Nop())
 					_, rerr := recovery.RecoverWithOptions(context.Background(), rowCallback, &wal.RecoveryOptions{
 						SkipActiveFile:   w.CurrentFile(),
 						MinFileAge:       minFileAge,
 						BatchSize:        10000,
 						ColumnarCallback: colCallback,
+						FlushReplayed:    ab.FlushAll,
 					})
 					if rerr == nil {
 						ab.ResetFlushFailure()
